@@ -661,9 +661,12 @@ func execFromStr32(in In, em *Emitter) {
 	from, w := in.I32("from"), in.I32("w")
 	o := J{}
 	abn := guard(func() {
-		k, val := bitmap.FromStr32(s, from, from+w)
 		p := bmtree.PathOf(s, from, w)
-		o = J{"k": num(int64(k)), "val": wordOnes(val), "path": wordOnes(p), "pstr": strJ(bmtree.PathStr(p))}
+		o = J{"k": 0, "val": []int64{}, "path": wordOnes(p), "pstr": strJ(bmtree.PathStr(p))}
+		if in.Bool("direct") { // FromStr32(s, from, from+w) is expressible only when from+w fits int32
+			k, val := bitmap.FromStr32(s, from, from+w)
+			o["k"], o["val"] = num(int64(k)), wordOnes(val)
+		}
 	})
 	em.Emit("fromstr32", J{"in": in.m, "out": o, "abn": abn})
 	em.Calls(3)
@@ -716,7 +719,7 @@ func genC11(g *Gen) {
 		s := randBytes(r, n)
 		for from := 0; from <= 8*n+9; from++ {
 			for w := 0; w <= 32; w++ {
-				g.Case("fromstr32", J{"s": bytesJ(s), "from": from, "w": w})
+				g.Case("fromstr32", J{"s": bytesJ(s), "from": from, "w": w, "direct": true})
 			}
 		}
 	}
@@ -736,7 +739,17 @@ func genC11(g *Gen) {
 		default:
 			from = r.Intn(8*n + 1)
 		}
-		g.Case("fromstr32", J{"s": bytesJ(s), "from": from, "w": r.Intn(33)})
+		g.Case("fromstr32", J{"s": bytesJ(s), "from": from, "w": r.Intn(33), "direct": true})
+	}
+	// start bits up to MaxInt32: far beyond any string; from+w may not fit int32 (then only PathOf is called)
+	for c := 0; c < g.N(300, 6000); c++ {
+		const maxI32 = int64(1)<<31 - 1
+		from := maxI32 - int64([]int{0, 1, 2, 7, 8, 30, 31, 32, 33, 34, 63, 64, 65, 1000}[r.Intn(14)])
+		if r.Intn(5) == 0 {
+			from = int64(1)<<30 + int64(r.Intn(1<<20))
+		}
+		w := int64(r.Intn(33))
+		g.Case("fromstr32", J{"s": bytesJ(randBytes(r, r.Intn(6))), "from": from, "w": w, "direct": from+w <= maxI32})
 	}
 	for c := 0; c < g.N(400, 15000); c++ {
 		nk := 1 + r.Intn(8)
